@@ -30,6 +30,13 @@ def schema_events(wd, quick, seed):
     evs.append({"ev": "artifact_file", "case": "legacy-artifact", "src": "static", "in": {"path": repo + "/data/random_lp_instance.ommx"}})
     return evs
 
+def schema_events_sampleset(wd, quick, seed):
+    """C15: 'sample sets decoded from messages written by releases that used the older feasibility fields' -- the published
+    numbering of the sample-set messages must still be the one the live schema and the bindings use."""
+    keep = {"sampleset", "sampledvalues", "sampledvalues.sampledvaluesentry", "sampleddecisionvariable", "sampledconstraint",
+            "samples", "samples.samplesentry", "state", "instance.sense"}
+    return [e for e in schema_events(wd, quick, seed) if e["ev"] in ("schema_msg", "schema_enum") and e["in"]["name"] in keep]
+
 # every history of the instance state machine as a seq vector (direction A for MC_InstSM)
 GSM_S = G("instsm_hist", "Gen_InstSM_S.cfg", module="Gen_InstSM.tla", cfg_thorough="Gen_InstSM.cfg")
 GSM = G("instsm_hist", "Gen_InstSM.cfg", module="Gen_InstSM.tla", cfg_thorough="Gen_InstSM_T.cfg")
@@ -37,20 +44,20 @@ GI = lambda name, cfgname: G(name, f"Gen_Inst_{cfgname}.cfg", module="Gen_Inst.t
 
 PLAN = {
     "C01": {
-        "mc": [MC_POLY], "lift_every": 17,
+        "mc": [MC_POLY], "lift_every": 17, "negzero_every": 5,
         "gen": [G("eval", "Gen_Fn_Eval.cfg")],
         "drive": [D("eval_fn", 3000, 300000)],
         "exhaustive_note": "all function messages with <=3 linear terms / <=2 quadratic entries (+optional linear part) / <=2 monomials of length <=3 over ids {1,2}, coefficients {-1,0,2,1/2}, x 9 states (6 complete, 3 missing a variable) x 2 entry points",
     },
     "C02": {
-        "mc": [MC_POLY], "lift_every": 17, "rescale_every": 3,
+        "mc": [MC_POLY], "lift_every": 17, "negzero_every": 5, "rescale_every": 3,
         "gen": [G("arith", "Gen_Fn_Arith.cfg"), G("arithdeep", "Gen_Fn_ArithDeep.cfg", tier="thorough"), G("fninfo", "Gen_Fn_FnInfo.cfg"),
                 G("fmt", "Gen_Fn_Fmt.cfg"), G("ctor", "Gen_Fn_Ctor.cfg")],
         "drive": [D("arith", 3000, 300000)],
         "exhaustive_note": "every (op, lhs kind, rhs kind) the API defines (107 + 7 negations) x a thin operand family per kind (incl. quadratics listing a pair in both triangles, decision variables of every kind)",
     },
     "C03": {
-        "mc": [MC_POLY, MC_INST], "lift_every": 17,
+        "mc": [MC_POLY, MC_INST], "lift_every": 17, "negzero_every": 5,
         "gen": [G("partial", "Gen_Fn_Partial.cfg"), GSM_S],
         "drive": [D("partial_fn", 3000, 200000), D("commute", 800, 40000), D("mixed", 300, 15000)],
     },
@@ -106,10 +113,11 @@ PLAN = {
     "C15": {
         "mc": [MC_INST, {"name": "best", "module": "MC_Best.tla", "cfg_quick": "MC_Best.cfg"}], "gen": [GI("best", "Best"), GSM_S],
         "drive": [D("as_min", 500, 20000), D("best", 1500, 60000), D("mixed", 300, 15000)],
+        "static": [schema_events_sampleset],
         "exhaustive_note": "all sample sets over <= 3 ids with objectives {0,1}, every feasibility pattern, both senses, current and legacy layout, objectives stored per id or grouped by value, direct and through encode/decode",
     },
     "C16": {
-        "mc": [MC_INTERVAL], "lift_every": 17, "rescale_every": 1,
+        "mc": [MC_INTERVAL], "lift_every": 17, "rescale_every": 1, "negzero_every": 2,
         "gen": [G("bound", "Gen_Fn_Bound.cfg"), G("contains", "Gen_Fn_Contains.cfg"), G("evalbound", "Gen_Fn_EvalBound.cfg"), G("content", "Gen_Fn_Content.cfg")],
         "drive": [D("eval_bound", 2000, 100000), D("content_factor", 2000, 100000)],
         "exhaustive_note": "all 43 valid intervals over {-inf,-3,-1,-1/2,0,1/2,1,2,+inf}: all pairs for + and x, exponents 0..6, 4 scalings",
@@ -135,7 +143,11 @@ PLAN = {
     "C20": {
         "mc": [{"name": "artifact", "module": "MC_Artifact.tla", "cfg_quick": "MC_Artifact.cfg", "cfg_thorough": "MC_Artifact_T.cfg"},
                M("store", "MC_Store.tla", "MC_Store.cfg")],
-        "gen": [G("artifact", "Gen_Artifact.cfg", module="Gen_Artifact.tla"), G("store", "Gen_Store.cfg", module="Gen_Store.tla")],
+        "gen": [G("artifact", "Gen_Artifact.cfg", module="Gen_Artifact.tla"), G("store", "Gen_Store.cfg", module="Gen_Store.tla"),
+                # "arbitrary messages": every field layout of the four layer messages (legacy fields, unknown fields, defaults
+                # written out) stored as a layer and read back with the typed getter
+                G("wire", "Gen_Wire.cfg", module="Gen_Wire.tla")],
+        "via_artifact": "only",
         "drive": [D("store", 300, 10000)],
         "exhaustive_note": "every add_* sequence of length <= 3 (quick) / <= 4 (thorough) over 4 kinds x 2 payloads (default = empty bytes under every kind, small), and all kind sequences up to length 4 / 6; 5x5 pairs of time annotations (s, ms, us, ns) on all four layer kinds; every history of <= 3 operations of the artifact store (2 names x 2 paths x 2 (quick) / 3 (thorough) contents)",
         "chunk": 200, "unique_names": True,
@@ -166,14 +178,15 @@ OWN = {
     # the evaluations interleaved with the histories decide C14's "values and feasibility are invariant, relaxed
     # feasibility depends on the active constraints only, the reason is recorded"
     "C14": {"relax": "*", "restore": "*", "evaluate": ["constraints_bag", "feasible", "feasible_relaxed", "reject_iff", "objective"]},
-    "C15": {"as_min": "*", "best": "*", "evaluate": ["objective", "reject_iff"]},
+    "C15": {"as_min": "*", "best": "*", "evaluate": ["objective", "reject_iff"],
+            "schema_msg": ["published_kept", "rust_matches_proto"], "schema_enum": ["published_kept", "rust_matches_proto"]},
     "C16": {"bound_op": "*", "eval_bound": "*", "content_factor": "*"},
     "C17": {"mps_load": "*"},
     "C18": {"mps_roundtrip": "*"},
     "C19": {"qplib_load": {"except": ["constraint_ids"]}},
     # store_op: C20 owns what its statement covers (what is stored is read back equal, nothing else is disturbed); the
     # store's overwrite policy (`result`, `step`) is an extension of the specification
-    "C20": {"artifact": "*", "store_op": ["no_panic", "fresh_store", "readable", "stored_content", "others_untouched"]},
+    "C20": {"artifact": "*", "wire_decode": ["no_error", "content"], "store_op": ["no_panic", "fresh_store", "readable", "stored_content", "others_untouched"]},
 }
 
 # a history that hangs or crashes the code under test counts against every property whose check performs it
